@@ -561,6 +561,9 @@ def runLine (st : Session) (line : String) : Session × String := Id.run do
       | .error p => return ({ st with slots := st.slots.erase w[1]!.toNat! }, "panic:" ++ p.tag)
     | _ => return (st, "bad-slot")
   | "reset" => return ({}, "ok")
+  | "drop" =>
+    let k := w[1]!.toNat!
+    return (if st.slots.contains k then ({ st with slots := st.slots.erase k }, "ok") else (st, "bad-slot"))
   | "border" => return (st, "ok")
   | "mtl" =>
     match expandSentence (α := F) (parseSentence (w.toList.drop 1)) with
